@@ -319,3 +319,30 @@ def safe_route(jinja2, route, cfg, src, **ctxvars):
         return "ERR " + str(e)
     except Exception as e:
         return "X:" + type(e).__name__ + ":" + str(e)[:80]
+
+
+def probe_shared_bytecode_cache(jinja2, kw_first, kw_second, src):
+    """two loader-backed environments that differ in lexer options and share ONE bytecode cache: the first
+    compiles `src`, then the second fetches the same name.  Returns (what the second renders, what a second
+    environment without a bytecode cache renders).  (Root cause recorded as C27-shared-cache-ignores-options.)"""
+    import shutil
+    import tempfile
+    from . import lib as _lib
+    d = tempfile.mkdtemp(prefix="lexbcc_", dir=_lib.BUILD)
+    try:
+        loader = jinja2.DictLoader({"t": src})
+        bcc = jinja2.FileSystemBytecodeCache(d)
+        e1 = jinja2.Environment(loader=loader, bytecode_cache=bcc, **kw_first)
+        e1.get_template("t").render()
+        e2 = jinja2.Environment(loader=loader, bytecode_cache=bcc, **kw_second)
+        try:
+            got = "D " + e2.get_template("t").render()
+        except Exception as e:
+            got = "X:" + type(e).__name__
+        try:
+            want = "D " + jinja2.Environment(loader=loader, **kw_second).get_template("t").render()
+        except Exception as e:
+            want = "X:" + type(e).__name__
+        return got, want
+    finally:
+        shutil.rmtree(d, ignore_errors=True)
